@@ -618,6 +618,14 @@ def _format_path(path):
     return f"'{''.join(chunks)}'"
 
 
+def _flipped_nested(value, dimensions):
+    # A signature member with dimensions is a (nested) list of interface objects; flipping it
+    # flips every interface object in it.
+    if not dimensions:
+        return flipped(value)
+    return [_flipped_nested(item, dimensions[1:]) for item in value]
+
+
 def _traverse_path(path, obj):
     first, *rest = path
     obj = obj[first]
@@ -1300,7 +1308,8 @@ class FlippedInterface:
         """
         if (name in self.__unflipped.signature.members and
                 self.__unflipped.signature.members[name].is_signature):
-            return flipped(getattr(self.__unflipped, name))
+            return _flipped_nested(getattr(self.__unflipped, name),
+                                   self.__unflipped.signature.members[name].dimensions)
         else:
             try: # descriptor first
                 return _gettypeattr(self.__unflipped, name).__get__(self, type(self.__unflipped))
@@ -1318,7 +1327,8 @@ class FlippedInterface:
         """
         if (name in self.__unflipped.signature.members and
                 self.__unflipped.signature.members[name].is_signature):
-            setattr(self.__unflipped, name, flipped(value))
+            setattr(self.__unflipped, name,
+                    _flipped_nested(value, self.__unflipped.signature.members[name].dimensions))
         else:
             try: # descriptor first
                 _gettypeattr(self.__unflipped, name).__set__(self, value)
